@@ -162,7 +162,8 @@ class World(object):
         if st.kind == "scalar":
             if st.strict:
                 return ("scalar", name, str(rnd.randint(0, 99)))
-            if getattr(st, "vanishing", False) and rnd.random() < 0.3:
+            # (only in worlds that may put nulls into non-null positions at all)
+            if getattr(st, "vanishing", False) and self.p_nn and rnd.random() < 0.3:
                 return S.VANISH
             return rnd.choice(["free", 12, 1.5, True, ["nested", 1], {"k": [1, 2]}])
         if st.kind == "enum":
